@@ -250,11 +250,19 @@ def fuzzy_equal(first: Array, second: Array, rel_tol: ArrayTolerance, abs_tol: A
     _check_valid_tolerance(rel_tol)
     _check_valid_tolerance(abs_tol)
 
+    # integer differences/absolute values may wrap around (unsigned types, most negative value)
+    first, second = _integers_as_floats(first), _integers_as_floats(second)
     abs_diff = np.abs(second - first)
     thresholds = select_max_values(np.abs(first), np.abs(second))
     thresholds = thresholds * rel_tol
     thresholds = select_max_values(thresholds, abs_tol)
     return np.less_equal(abs_diff, thresholds)
+
+
+def _integers_as_floats(input_array: Array) -> Array:
+    if isinstance(input_array, Array) and np.issubdtype(input_array.dtype, np.integer):
+        return input_array.astype(float)
+    return input_array
 
 
 def find_first_fuzzy_unequal(
